@@ -1,12 +1,259 @@
 package main
 
+import (
+	"fmt"
+	"go/types"
+	"os"
+	"regexp"
+	"strconv"
+	"strings"
+	"time"
+
+	"golang.org/x/tools/go/ssa"
+)
+
 type replayResult struct {
 	ran    bool
 	failed bool
 	log    string
 }
 
-// replay tries to confirm a refuted obligation on the real code.
-func (cr *checkRun) replay(o *Oblig) replayResult {
-	return replayResult{}
+var modelRe = regexp.MustCompile(`\(define-fun \|?(p_[A-Za-z0-9_]+)![0-9]+\|? \(\) (\(_ BitVec [0-9]+\)|Int|Bool)\s+([^\n]+)\)`)
+
+// parseModel extracts parameter values from a solver model.
+func parseModel(out string) map[string]string {
+	m := map[string]string{}
+	out = strings.ReplaceAll(out, "\n    ", " ")
+	for _, mt := range modelRe.FindAllStringSubmatch(out, -1) {
+		name := strings.TrimPrefix(mt[1], "p_")
+		val := strings.TrimSpace(mt[3])
+		switch {
+		case strings.HasPrefix(val, "#x"):
+			if n, err := strconv.ParseUint(val[2:], 16, 64); err == nil {
+				m[name] = fmt.Sprintf("%d", n)
+			}
+		case strings.HasPrefix(val, "#b"):
+			if n, err := strconv.ParseUint(val[2:], 2, 64); err == nil {
+				m[name] = fmt.Sprintf("%d", n)
+			}
+		case strings.HasPrefix(val, "(- "):
+			m[name] = "-" + strings.TrimSuffix(strings.TrimPrefix(val, "(- "), ")")
+		case val == "true" || val == "false":
+			m[name] = val
+		default:
+			if _, err := strconv.ParseInt(val, 10, 64); err == nil {
+				m[name] = val
+			}
+		}
+	}
+	return m
 }
+
+func scalarGoType(t types.Type) (string, bool) {
+	switch u := t.Underlying().(type) {
+	case *types.Basic:
+		if _, _, ok := basicIntInfo(u); ok {
+			return types.TypeString(t, func(*types.Package) string { return "" }), true
+		}
+		if u.Kind() == types.Bool {
+			return "bool", true
+		}
+	}
+	return "", false
+}
+
+// replay tries to confirm a failed obligation on the real code: the function is
+// run on the solver's model (if any) and on a structured + seeded-random input
+// sweep, with the contract (panics clause, Go-expressible ensures) as oracle.
+func (cr *checkRun) replay(o *Oblig) replayResult {
+	if o.Replayed {
+		return replayResult{ran: true, failed: o.Status == "refuted", log: o.Model}
+	}
+	if o.fc == nil || o.fc.fn == nil || o.fc.c == nil {
+		return replayResult{}
+	}
+	fn := o.fc.fn
+	if fn.Pkg == nil || fn.Parent() != nil {
+		return replayResult{}
+	}
+	src, ok := cr.replaySource(o.fc, parseModel(o.Model))
+	if !ok {
+		return replayResult{}
+	}
+	out, _ := cr.e.runInjectedTest(fn.Pkg.Pkg.Path(), "zz_gocv_replay_test.go", src, "TestGocvReplay", 120*time.Second)
+	res := replayResult{ran: true}
+	var keep []string
+	for _, ln := range strings.Split(out, "\n") {
+		if strings.HasPrefix(ln, "GOCV-REPLAY") {
+			keep = append(keep, ln)
+			if strings.HasPrefix(ln, "GOCV-REPLAY-FAIL") {
+				res.failed = true
+			}
+		}
+	}
+	if len(keep) == 0 {
+		keep = append(keep, truncate(out, 3000))
+	}
+	res.log = "test source injected with `go test -tags verif -overlay` into " + fn.Pkg.Pkg.Path() + ":\n" + src + "\noutput:\n" + strings.Join(keep, "\n")
+	return res
+}
+
+func (cr *checkRun) replaySource(fc *FnCtx, model map[string]string) (string, bool) {
+	fn := fc.fn
+	c := fc.c
+	sig := fn.Signature
+	type par struct{ name, typ string }
+	var ps []par
+	for _, p := range fn.Params {
+		gt, ok := scalarGoType(p.Type())
+		if !ok {
+			return "", false
+		}
+		name := p.Name()
+		if name == "" || name == "_" {
+			return "", false
+		}
+		ps = append(ps, par{name, gt})
+	}
+	if len(ps) == 0 || len(ps) > 4 {
+		return "", false
+	}
+	var resNames []string
+	for i := 0; i < sig.Results().Len(); i++ {
+		if _, ok := scalarGoType(sig.Results().At(i).Type()); !ok {
+			return "", false
+		}
+		n := sig.Results().At(i).Name()
+		if n == "" || n == "_" {
+			n = fmt.Sprintf("result%d", i)
+		}
+		resNames = append(resNames, n)
+	}
+	seed := os.Getenv("VERIF_SEED")
+	if seed == "" {
+		seed = "1"
+	}
+	var sb strings.Builder
+	fmt.Fprintf(&sb, "//go:build verif\n\npackage %s\n\nimport (\n\t\"fmt\"\n\t\"math/rand\"\n\t\"testing\"\n)\n\n", fn.Pkg.Pkg.Name())
+	sb.WriteString("func gocvVals(bits int, rng *rand.Rand) []uint64 {\n\tvs := []uint64{0, 1, 2, 3, 4, 5, 7, 8, 15, 16, 17, 255, 256, 257}\n\tfor k := 3; k < bits; k++ {\n\t\tvs = append(vs, uint64(1)<<uint(k), uint64(1)<<uint(k)-1, uint64(1)<<uint(k)+1)\n\t}\n\tvs = append(vs, 65534, 65535, 65536, 65537, 131070, 131071, 4294967295, 18446744073709551615, 9223372036854775807, 9223372036854775808)\n\tfor i := 0; i < 40; i++ {\n\t\tvs = append(vs, rng.Uint64()>>uint(rng.Intn(64)))\n\t}\n\treturn vs\n}\n\n")
+	fmt.Fprintf(&sb, "func TestGocvReplay(gocvT *testing.T) {\n\trng := rand.New(rand.NewSource(%s))\n\tcases := 0\n", seed)
+	// value lists
+	bitsOf := func(t string) int {
+		switch t {
+		case "uint8", "byte", "int8":
+			return 8
+		case "uint16", "int16", "T":
+			return 16
+		case "uint32", "int32":
+			return 32
+		}
+		return 64
+	}
+	for _, p := range ps {
+		if p.typ == "bool" {
+			fmt.Fprintf(&sb, "\tvals_%s := []uint64{0, 1}\n", p.name)
+			continue
+		}
+		fmt.Fprintf(&sb, "\tvals_%s := gocvVals(%d, rng)\n", p.name, bitsOf(p.typ))
+		if v, ok := model[p.name]; ok && v != "true" && v != "false" {
+			if strings.HasPrefix(v, "-") {
+				fmt.Fprintf(&sb, "\tvals_%s = append([]uint64{uint64(int64(%s))}, vals_%s...)\n", p.name, v, p.name)
+			} else {
+				fmt.Fprintf(&sb, "\tvals_%s = append([]uint64{%s}, vals_%s...)\n", p.name, v, p.name)
+			}
+		}
+	}
+	capN := map[int]int{1: 1000000, 2: 1400, 3: 120, 4: 36}[len(ps)]
+	for _, p := range ps {
+		fmt.Fprintf(&sb, "\tif len(vals_%s) > %d { vals_%s = vals_%s[:%d] }\n", p.name, capN, p.name, p.name, capN)
+	}
+	indent := "\t"
+	for _, p := range ps {
+		fmt.Fprintf(&sb, "%sfor _, raw_%s := range vals_%s {\n", indent, p.name, p.name)
+		indent += "\t"
+		if p.typ == "bool" {
+			fmt.Fprintf(&sb, "%s%s := raw_%s != 0\n", indent, p.name, p.name)
+		} else {
+			fmt.Fprintf(&sb, "%s%s := %s(raw_%s)\n", indent, p.name, p.typ, p.name)
+		}
+		fmt.Fprintf(&sb, "%s%s_old := %s\n%s_, _ = %s, %s_old\n", indent, p.name, p.name, indent, p.name, p.name)
+	}
+	// requires
+	for _, r := range c.Requires {
+		g, err := goExpr(r.Text)
+		if err != nil {
+			return "", false
+		}
+		fmt.Fprintf(&sb, "%sif !(%s) { continue }\n", indent, g)
+	}
+	for _, r := range c.ReplayReq {
+		fmt.Fprintf(&sb, "%sif !(%s) { continue }\n", indent, r)
+	}
+	fmt.Fprintf(&sb, "%scases++\n", indent)
+	// call
+	var argNames []string
+	start := 0
+	call := ""
+	if sig.Recv() != nil {
+		start = 1
+		call = fmt.Sprintf("%s.%s", ps[0].name, fn.Name())
+	} else {
+		call = fn.Name()
+	}
+	for _, p := range ps[start:] {
+		argNames = append(argNames, p.name)
+	}
+	var fmts, fargs []string
+	for _, p := range ps {
+		fmts = append(fmts, p.name+"=%v")
+		fargs = append(fargs, p.name)
+	}
+	desc := fmt.Sprintf("fmt.Sprintf(\"%s\", %s)", strings.Join(fmts, " "), strings.Join(fargs, ", "))
+	panicsAllowed := "false"
+	if c.Panics != nil {
+		if g, err := goExpr(c.Panics.Text); err == nil {
+			panicsAllowed = g
+		}
+	}
+	fmt.Fprintf(&sb, "%sfunc() {\n%s\tdefer func() {\n%s\t\tif r := recover(); r != nil {\n%s\t\t\tif !(%s) {\n%s\t\t\t\tfmt.Printf(\"GOCV-REPLAY-FAIL %s panics (%%v) on input %%s\\n\", r, %s)\n%s\t\t\t\tgocvT.Fail()\n%s\t\t\t}\n%s\t\t}\n%s\t}()\n",
+		indent, indent, indent, indent, panicsAllowed, indent, fc.name, desc, indent, indent, indent, indent)
+	lhs := strings.Join(resNames, ", ")
+	if lhs != "" {
+		fmt.Fprintf(&sb, "%s\t%s := %s(%s)\n", indent, lhs, call, strings.Join(argNames, ", "))
+		for _, n := range resNames {
+			fmt.Fprintf(&sb, "%s\t_ = %s\n", indent, n)
+		}
+		if len(resNames) == 1 {
+			fmt.Fprintf(&sb, "%s\tresult := %s\n%s\t_ = result\n", indent, resNames[0], indent)
+			if resNames[0] != "result0" {
+				fmt.Fprintf(&sb, "%s\tresult0 := result\n%s\t_ = result0\n", indent, indent)
+			}
+		}
+	} else {
+		fmt.Fprintf(&sb, "%s\t%s(%s)\n", indent, call, strings.Join(argNames, ", "))
+	}
+	if c.Panics != nil && panicsAllowed != "false" {
+		fmt.Fprintf(&sb, "%s\tif %s {\n%s\t\tfmt.Printf(\"GOCV-REPLAY-FAIL %s did not panic although the contract requires it, input %%s\\n\", %s)\n%s\t\tgocvT.Fail()\n%s\t}\n", indent, panicsAllowed, indent, fc.name, desc, indent, indent)
+	}
+	nClauses := 0
+	for _, en := range c.Ensures {
+		g, err := goExpr(en.Text)
+		if err != nil || strings.Contains(g, "gocvParForall") {
+			continue
+		}
+		// parameters in ensures denote entry values
+		nClauses++
+		fmt.Fprintf(&sb, "%s\tif !(%s) {\n%s\t\tfmt.Printf(\"GOCV-REPLAY-FAIL %s violates ensures %%q on input %%s (results: %%v)\\n\", %q, %s, []interface{}{%s})\n%s\t\tgocvT.Fail()\n%s\t}\n",
+			indent, g, indent, fc.name, en.Text, desc, lhs, indent, indent)
+	}
+	fmt.Fprintf(&sb, "%s}()\n", indent)
+	fmt.Fprintf(&sb, "%sif gocvT.Failed() { return }\n", indent)
+	for range ps {
+		indent = indent[:len(indent)-1]
+		fmt.Fprintf(&sb, "%s}\n", indent)
+	}
+	fmt.Fprintf(&sb, "\tfmt.Printf(\"GOCV-REPLAY-DONE cases=%%d clauses=%d\\n\", cases)\n}\n", nClauses)
+	return sb.String(), true
+}
+
+var _ = ssa.Function{}
